@@ -6,6 +6,15 @@
 //!   sweep ms d                  -> digest of reg2bin and reg2bins over *all* intervals of the geometry
 //!   opt   m  s:e,s:e,...        -> optimize_chunks
 //!   addc  s:e,s:e,...           -> Bin::add_chunk applied left to right
+//!   opta  m  s:e,...            -> optimize_chunks on ARBITRARY chunk lists: duplicates, nested/overlapping chunks,
+//!                                  equal starts, empty chunks (s = e), inverted chunks (e < s; with a start of their own)
+//!   optp  m  cs  sorted         -> model: merge_sorted on `sorted`, a permutation of the retained chunks sorted by start
+//!                                  with ties in a random order; impl: optimize_chunks(cs, m) (no inverted chunks: every
+//!                                  tie order must give the same list)
+//!   csih  ms d id=loff=chunks;... qs:qe,...  -> hostile but well-formed CSI reference (bin ids inside AND outside the
+//!                                  geometry, duplicate/nested/overlapping chunks, any loffsets, depth 0 included):
+//!                                  answers of the real Index::query before and after csi write + read, against the
+//!                                  model's query on the index and on its re-read (reread_loffs)
 //! Implementation-only oracles:
 //!   pairs ms d                  -> reg2bin(f) in reg2bins(r) for all (or sampled) intersecting pairs
 //!   idxrt kind seed             -> write/read round trip of a generated BAI/CSI/tabix index
@@ -174,6 +183,52 @@ fn gen_chunk_list(rng: &mut Rng, n: usize, span: u64) -> Vec<(u64, u64)> {
         .collect()
 }
 
+/// arbitrary chunk lists: duplicates, nested chunks, equal starts, empty and (optionally) inverted chunks
+fn gen_chunk_list_any(rng: &mut Rng, n: usize, span: u64, inverted: bool) -> Vec<(u64, u64)> {
+    let mut cs: Vec<(u64, u64)> = Vec::new();
+    for _ in 0..n {
+        let s = rng.below(span);
+        let l = if rng.chance(1, 2) { rng.range(1, 3) } else { rng.range(1, span / 2 + 1) };
+        let c = match rng.below(20) {
+            0..=7 => (s, s + l),
+            8 | 9 => (s, s),
+            10 | 11 if inverted => (s + l, s),
+            12..=14 if !cs.is_empty() => *rng.pick(&cs),
+            15 | 16 if !cs.is_empty() => {
+                // nested in (or equal to) an earlier chunk
+                let (a, b) = *rng.pick(&cs);
+                let (a, b) = (a.min(b), a.max(b));
+                let x = a + rng.below(b - a + 1);
+                (x, x + rng.below(b - x + 1))
+            }
+            17 | 18 if !cs.is_empty() => {
+                // same start as an earlier chunk, another end
+                let (a, _) = *rng.pick(&cs);
+                (a, a + rng.below(l + 1))
+            }
+            _ => (s, s + l),
+        };
+        cs.push(c);
+    }
+    // an inverted chunk keeps a start of its own (sort_unstable leaves the order of equal starts open,
+    // and with an inverted chunk that order shows in the output: c17_optimize_any_example)
+    // (turning a chunk round gives it a new start: repeat until nothing changes; every round removes an inverted chunk)
+    loop {
+        let mut changed = false;
+        for i in 0..cs.len() {
+            let (a, b) = cs[i];
+            if b < a && cs.iter().enumerate().any(|(j, c)| j != i && c.0 == a) {
+                cs[i] = (b, a);
+                changed = true;
+            }
+        }
+        if !changed {
+            break;
+        }
+    }
+    cs
+}
+
 fn generate(rng: &mut Rng, tier: &str, w: &mut CaseWriter) {
     let thorough = tier == "thorough";
     // exhaustive sweeps over small geometries
@@ -223,6 +278,35 @@ fn generate(rng: &mut Rng, tier: &str, w: &mut CaseWriter) {
         let m = if rng.chance(1, 3) { 0 } else { rng.below(span + 2) };
         w.push("opt", vec![m.to_string(), fmt_chunks(&cs)]);
     }
+    let n = if thorough { 6000 } else { 300 };
+    for i in 0..n {
+        let k = match i % 5 {
+            0 => rng.below(3),
+            1 => rng.range(2, 6),
+            _ => rng.range(1, 14),
+        } as usize;
+        let span = *rng.pick(&[4u64, 8, 16, 60, 1 << 40]);
+        let cs = gen_chunk_list_any(rng, k, span, true);
+        let m = match rng.below(4) {
+            0 => 0,
+            1 if !cs.is_empty() => rng.pick(&cs).1.saturating_sub(rng.below(2)),
+            _ => rng.below(span + 2),
+        };
+        w.push("opta", vec![m.to_string(), fmt_chunks(&cs)]);
+    }
+    let n = if thorough { 4000 } else { 200 };
+    for _ in 0..n {
+        let k = rng.range(1, 14) as usize;
+        let span = *rng.pick(&[4u64, 8, 16, 60]);
+        let cs = gen_chunk_list_any(rng, k, span, false);
+        let m = if rng.chance(1, 3) { 0 } else { rng.below(span + 2) };
+        // the retained chunks sorted by start, equal starts in a random order
+        let mut keyed: Vec<(u64, u64, (u64, u64))> =
+            cs.iter().filter(|c| c.1 > m).map(|&c| (c.0, rng.next(), c)).collect();
+        keyed.sort();
+        let sorted: Vec<(u64, u64)> = keyed.into_iter().map(|k| k.2).collect();
+        w.push("optp", vec![m.to_string(), fmt_chunks(&cs), fmt_chunks(&sorted)]);
+    }
     let n = if thorough { 3000 } else { 150 };
     for _ in 0..n {
         // file-order chunk sequences: starts and ends non-decreasing
@@ -238,6 +322,56 @@ fn generate(rng: &mut Rng, tier: &str, w: &mut CaseWriter) {
             }
         }
         w.push("addc", vec![fmt_chunks(&cs)]);
+    }
+    // hostile but well-formed CSI references
+    let n = if thorough { 3000 } else { 200 };
+    for i in 0..n {
+        let &(ms, d) = rng.pick(&[(14u64, 5u64), (14, 1), (4, 2), (14, 0), (1, 0), (3, 3), (20, 4)]);
+        let lim = ((1u64 << ((d + 1) * 3)) - 1) / 7; // max_id: ids below it are in the scheme
+        let mut ids: Vec<u64> = Vec::new();
+        let outside = i % 3 != 0;
+        for _ in 0..rng.range(1, 5) {
+            let mut id = match rng.below(6) {
+                0 => rng.below(lim.min(10)),
+                1 => lim - 1 - rng.below(lim.min(3)),
+                // outside the geometry: max_id itself, beyond the metadata id, a "child" of a leaf bin
+                2 if outside => {
+                    let opts = [lim, lim + 2, lim + 2 + rng.below(40), 8 * (lim - 1 - rng.below(lim.min(8))) + 1 + rng.below(8)];
+                    *rng.pick(&opts)
+                }
+                3 if outside => lim + 2 + rng.below(8 * lim + 8),
+                _ => rng.below(lim),
+            };
+            loop {
+                if id != lim + 1 && !ids.contains(&id) {
+                    ids.push(id);
+                }
+                if id == 0 || rng.chance(1, 3) {
+                    break;
+                }
+                id = (id - 1) / 8;
+            }
+        }
+        for k in (1..ids.len()).rev() {
+            let j = rng.below(k as u64 + 1) as usize;
+            ids.swap(k, j);
+        }
+        let span = *rng.pick(&[40u64, 400, 4000]);
+        let bins: Vec<String> = ids
+            .iter()
+            .map(|id| {
+                let k = rng.below(4) as usize;
+                let cs = gen_chunk_list_any(rng, k, span, false);
+                format!("{id}={}={}", rng.below(span), fmt_chunks(&cs))
+            })
+            .collect();
+        let qs: Vec<String> = (0..6)
+            .map(|_| {
+                let (s, e) = gen_interval(rng, ms, d);
+                format!("{s}:{e}")
+            })
+            .collect();
+        w.push("csih", vec![ms.to_string(), d.to_string(), if bins.is_empty() { "_".into() } else { bins.join(";") }, qs.join(",")]);
     }
     let n = if thorough { 600 } else { 60 };
     for i in 0..n {
@@ -451,6 +585,21 @@ fn run_pairs(ms: u64, d: u64, seed: u64) -> Obs {
     o.verdict = "ok".into();
     let _ = n;
     o
+}
+
+/// c17_optimize_chunks_any, the shape part: every output start / end is the start / end of a retained
+/// input chunk, and the output is not longer than the retained list
+fn check_opt_shape(input: &[(u64, u64)], m: u64, out: &[(u64, u64)]) -> Result<(), (String, String)> {
+    let kept: Vec<(u64, u64)> = input.iter().copied().filter(|c| c.1 > m).collect();
+    for o in out {
+        if !kept.iter().any(|c| c.0 == o.0) || !kept.iter().any(|c| c.1 == o.1) {
+            return Err(("optimize-invents-endpoint".into(), format!("m={m} in={input:?} out={out:?}")));
+        }
+    }
+    if out.len() > kept.len() {
+        return Err(("optimize-longer-than-input".into(), format!("m={m} in={input:?} out={out:?}")));
+    }
+    Ok(())
 }
 
 fn check_opt(input: &[(u64, u64)], m: u64, out: &[(u64, u64)]) -> Result<(), (String, String)> {
@@ -782,6 +931,76 @@ fn run_csil(c: &Case) -> Obs {
     Obs::ok(if obs.is_empty() { "_".into() } else { obs.join(",") }, recs.len() >= 3)
 }
 
+fn run_csih(c: &Case) -> Obs {
+    let (ms, d) = (c.u(0) as u8, c.u(1) as u8);
+    let mut bins: IndexMap<usize, Bin> = IndexMap::new();
+    let mut loffs = BinnedIndex::new();
+    if c.args[2] != "_" {
+        for b in c.args[2].split(';') {
+            let f: Vec<&str> = b.split('=').collect();
+            let id: usize = f[0].parse().unwrap();
+            bins.insert(id, Bin::new(to_chunks(&parse_chunks(f[2]))));
+            loffs.insert(id, VP::from(f[1].parse::<u64>().unwrap()));
+        }
+    }
+    let lim = ((1u64 << ((d as u64 + 1) * 3)) - 1) / 7;
+    let outside = bins.keys().any(|&id| id as u64 >= lim);
+    let qs = parse_chunks(&c.args[3]);
+    let index: csi::Index = binning_index::Index::<BinnedIndex>::builder()
+        .set_min_shift(ms)
+        .set_depth(d)
+        .set_reference_sequences(vec![ReferenceSequence::new(bins, loffs, None)])
+        .build();
+    let answers = |ix: &csi::Index| -> Vec<Option<Vec<(u64, u64)>>> {
+        qs.iter().map(|&(s, e)| ix.query(0, (pos(s)..=pos(e)).into()).ok().map(|cs| from_chunks(&cs))).collect()
+    };
+    let mut w = csi::io::Writer::new(Vec::new());
+    if let Err(e) = w.write_index(&index) {
+        return Obs::fail(format!("Err:{:?}", e.kind()), "csi-write-error", format!("{e} {}", c.line()));
+    }
+    let buf = w.into_inner().finish().unwrap();
+    let back = match csi::io::Reader::new(Cursor::new(buf.clone())).read_index() {
+        Ok(i) => i,
+        Err(e) => return Obs::fail("Err", "csi-read-error", format!("{e} {}", c.line())),
+    };
+    match c17_layout::async_csi(buf) {
+        Ok(x) if x == back => {}
+        other => {
+            return Obs::fail(
+                "-",
+                "csi-async-reader-differs-from-sync",
+                format!("sync={} async={} {}", c17_layout::fmt_csi_res(&Ok(back)), c17_layout::fmt_csi_res(&other), c.line()),
+            );
+        }
+    }
+    let (before, after) = (answers(&index), answers(&back));
+    let f = |a: &Option<Vec<(u64, u64)>>| a.as_ref().map(|cs| fmt_chunks(cs)).unwrap_or_else(|| "Err".into());
+    let obs: Vec<String> = before.iter().zip(&after).map(|(b, a)| format!("{}>{}", f(b), f(a))).collect();
+    let obs = Obs::ok(obs.join("|"), index.reference_sequences()[0].bins().len() >= 2);
+    for (b, a) in before.iter().zip(&after) {
+        match (b, a) {
+            (Some(b), Some(a)) => {
+                // nothing the original answer covered is lost (c17_csi_reread_query_covers_any)
+                let cov = |cs: &[(u64, u64)], v: u64| cs.iter().any(|&(x, y)| x <= v && v < y);
+                for &(x, y) in b {
+                    for v in [x, y.saturating_sub(1), (x + y) / 2] {
+                        if cov(b, v) && !cov(a, v) {
+                            return obs.with_verdict(Err(("csi-reread-query-loses-coverage".into(), c.line())));
+                        }
+                    }
+                }
+                if b != a {
+                    let tag = if outside { "csi-bin-outside-geometry-reread-query-grows" } else { "csi-reread-query-differs" };
+                    return obs.with_verdict(Err((tag.into(), format!("before={b:?} after={a:?} {}", c.line()))));
+                }
+            }
+            (None, None) => {}
+            _ => return obs.with_verdict(Err(("csi-reread-query-error-differs".into(), c.line()))),
+        }
+    }
+    obs
+}
+
 fn run_bai(c: &Case) -> Obs {
     use noodles_csi::binning_index::index::reference_sequence::Metadata;
     let unplaced: Option<u64> = if c.args[0] == "-" { None } else { Some(c.args[0].parse().unwrap()) };
@@ -971,6 +1190,29 @@ fn run(c: &Case) -> Obs {
             let out = from_chunks(&binning_index::optimize_chunks(&to_chunks(&cs), VP::from(m)));
             Obs::ok(fmt_chunks(&out), cs.len() >= 2).with_verdict(check_opt(&cs, m, &out))
         }
+        "opta" => {
+            let m = c.u(0);
+            let cs = parse_chunks(&c.args[1]);
+            let out = from_chunks(&binning_index::optimize_chunks(&to_chunks(&cs), VP::from(m)));
+            let r = check_opt(&cs, m, &out).and_then(|_| check_opt_shape(&cs, m, &out));
+            Obs::ok(fmt_chunks(&out), cs.len() >= 2).with_verdict(r)
+        }
+        "optp" => {
+            let m = c.u(0);
+            let cs = parse_chunks(&c.args[1]);
+            let sorted = parse_chunks(&c.args[2]);
+            // the case is well formed: `sorted` is a permutation of the retained chunks, sorted by start
+            let mut a: Vec<_> = cs.iter().copied().filter(|c| c.1 > m).collect();
+            let mut b = sorted.clone();
+            a.sort();
+            b.sort();
+            if a != b || sorted.windows(2).any(|w| w[0].0 > w[1].0) || cs.iter().any(|c| c.1 < c.0) {
+                return Obs::ok("-", false).with_verdict(Err(("optp-malformed-case".into(), c.args.join(" "))));
+            }
+            let out = from_chunks(&binning_index::optimize_chunks(&to_chunks(&cs), VP::from(m)));
+            let r = check_opt(&cs, m, &out).and_then(|_| check_opt_shape(&cs, m, &out));
+            Obs::ok(fmt_chunks(&out), cs.len() >= 2).with_verdict(r)
+        }
         "addc" => {
             let cs = parse_chunks(&c.args[0]);
             let mut bin = Bin::new(Vec::new());
@@ -984,6 +1226,7 @@ fn run(c: &Case) -> Obs {
         }
         "idxrt" => run_idxrt(&c.args[0], c.u(1)),
         "csil" => run_csil(c),
+        "csih" => run_csih(c),
         "bai" => run_bai(c),
         "gzi" => run_gzi(c),
         "fai" => run_fai(c.u(0)),
